@@ -31,6 +31,19 @@ CONTENTS = [b'', b'a', b'plain ascii text\n', 'hÃ©llo wÃ¶rld'.encode(), 'æ—¥æœ¬è
             b'line one\r\nline two\nline three\r', 'caf\xe9 latin-1'.encode('latin-1')]
 
 
+def content_octets(spec):
+    """hex, or 'repeat:N:K' = an incompressible N-octet block stored K times (a DEFLATE match at distance N: needs a window of more than N octets)"""
+    if spec.startswith('repeat:'):
+        _, n, k = spec.split(':')
+        out = bytearray()
+        x = 12345
+        while len(out) < int(n):
+            x = (x * 1103515245 + 12345) & 0x7FFFFFFF
+            out += x.to_bytes(4, 'big')[1:]
+        return bytes(out[:int(n)]) * int(k)
+    return bytes.fromhex(spec)
+
+
 def content_class(b):
     if not b:
         return 'empty'
@@ -43,11 +56,12 @@ def content_class(b):
 
 def case_strategy(big):
     content = st.one_of(st.sampled_from(CONTENTS), st.binary(max_size=200), st.text(max_size=60).map(lambda t: t.encode('utf-8', 'ignore')),
-                        st.sampled_from([8383, 8384, 65536] if big else [300]).flatmap(lambda n: st.binary(min_size=n, max_size=n)))
+                        st.sampled_from([8383, 8384, 65536] if big else [300]).flatmap(lambda n: st.binary(min_size=n, max_size=n))).map(lambda b: b.hex())
+    content = st.one_of(content, content, content, st.sampled_from(['repeat:12000:2', 'repeat:30000:2', 'repeat:8200:3', 'repeat:33000:2']))
     fname = st.sampled_from([None, None, 'plain.txt', 'Ã¼nÃ¯cÃ¶dÃ©.txt', 'æ—¥æœ¬.bin', 'x' * 200, 'sp ace.txt', 'n' * 85 + '.dat'])
     return st.fixed_dictionaries({
         'dir': st.sampled_from(['own', 'own', 'foreign']),
-        'content': content.map(lambda b: b.hex()),
+        'content': content,
         'ctype': st.sampled_from(['bytes', 'str']),
         'fmt': st.sampled_from([None, 'b', 't', 'u']),
         'encoding': st.sampled_from([None, None, 'latin-1', 'utf-8']),
@@ -71,7 +85,7 @@ def snapshot(msg):
 def eval_own(c, rec):
     import pgpy
     from pgpy.constants import CompressionAlgorithm
-    raw = bytes.fromhex(c['content'])
+    raw = content_octets(c['content'])
     fmt = c['fmt']
     enc = c['encoding']
     text = None
@@ -209,7 +223,7 @@ def eval_own(c, rec):
 
 def eval_foreign(c, rec):
     import pgpy
-    raw = bytes.fromhex(c['content'])
+    raw = content_octets(c['content'])
     fmt = {'b': 0x62, 't': 0x74, 'u': 0x75, None: 0x62}[c['fmt']]
     cls = content_class(raw)
     if fmt != 0x62 and cls == 'binary':
@@ -309,6 +323,15 @@ def matrix(arg):
                          'signers': [(SIGNERS[(i + k) % len(SIGNERS)], [0, 0, 3][k % 3]) for k in range(nsig)], 'transport': ['bin', 'asc'][i % 2],
                          'hdr': ['new', 'old', 'partial', 'new5', 'indeterminate'][i % 5]}
                     evaluate(c, rec)
+    # long-range repeats (matches at distances up to the full 32 KiB DEFLATE window) under every compression, both directions
+    for j, spec in enumerate(['repeat:12000:2', 'repeat:30000:2', 'repeat:8200:3']):
+        for comp in (1, 2, 3):
+            for d in ('own', 'foreign'):
+                i += 1
+                if i % nparts != part:
+                    continue
+                evaluate({'dir': d, 'content': spec, 'ctype': 'bytes', 'fmt': 'b', 'encoding': None, 'fname': None, 'mtime': 1234567890, 'sensitive': False, 'comp': comp,
+                          'signers': [(SIGNERS[0], 0)] if j == 0 else [], 'transport': ['bin', 'asc'][i % 2], 'hdr': ['new', 'partial', 'indeterminate', 'old'][i % 4]}, rec)
     return rec
 
 
